@@ -3,6 +3,8 @@
 import os
 import shutil
 
+import numpy as np
+
 from hypothesis import strategies as st
 
 from .. import build, e2e, pipeline, strat, topo
@@ -443,10 +445,87 @@ def check_inject_enum(case):
     return check_fail(c)
 
 
+# ------------------------------------------------------------------ ligand whose PDB copy is incomplete
+@st.composite
+def ligand_case(draw):
+    ch = draw(strat.chain(cid="A", nmin=2, nmax=4, variants=0, hyd="none", oxt=True))
+    for k in ("extra", "altmod", "hetres", "shuffle"):
+        ch.pop(k, None)
+    ch["ter"] = True
+    return dict(part="ligand", chain=ch, choices=draw(st.lists(st.integers(0, 10**6), min_size=24, max_size=60)),
+                ff=draw(st.sampled_from(PROTEIN_FFS)), prefill=draw(st.booleans()), nwat=draw(st.integers(0, 2)),
+                restart=draw(st.booleans()), opts=draw(st.sampled_from([[], [], ["--noopt"], ["--nodebump"], ["--whitespace"]])))  # fmt: skip
+
+
+def check_ligand(case):
+    """A complex whose ligand HETATM block lacks one atom of the MOL2 record: the charges written for the
+    ligand are the MOL2-derived ones (C16), so without an atom of charge q (0.05 <= |q| <= 0.95 away
+    from an integer) the total cannot be integral - the run must fail and leave the output path alone.
+    The complete complex is the control and must succeed."""
+    import io as _io
+
+    from .. import molgen
+    from pdb2pqr.ligand.mol2 import Mol2Molecule
+
+    res = Result()
+    m = molgen.random_mol(molgen.Chooser(case["choices"]), max_atoms=30)
+    n = len(m.atoms)
+    names = molgen.default_names(m)
+    mol_text = molgen.to_mol2(m, names)
+    try:
+        ref = Mol2Molecule()
+        ref.read(_io.StringIO(mol_text))
+        ref.assign_parameters()
+    except Exception:  # noqa: BLE001
+        res.label("ligand-rejected")
+        return res
+    q = [round(ref.atoms[names[i]].charge, 4) for i in range(n)]
+    frac = [abs(x - round(x)) for x in q]
+    cand = [i for i in range(n) if 0.05 <= frac[i]]
+    sentinel = "SENTINEL previous content\n"
+
+    def run(skip):
+        s = build.materialise(dict(chains=[case["chain"]]))
+        k = 0
+        for i in range(n):
+            if i == skip:
+                continue
+            k += 1
+            rec = dict(name=names[i], resn="LIG", chain="L", seq=500, xyz=np.array(molgen.coords(i)) + 25.0, rec="HETATM", group=("lig", i))
+            if case["restart"]:
+                rec["serial"] = k
+            s.add(**rec)
+        for w in range(case["nwat"]):
+            s.add(name="O", resn="HOH", chain="W", seq=600 + w, xyz=np.array([40.0 + 4 * w, 10.0, 10.0]), rec="HETATM", group=("water", "W", 600 + w))
+        return pipeline.run(s.text(), [f"--ff={case['ff']}", "--ligand=@DIR@/lig.mol2", *case["opts"]], extra_files={"lig.mol2": mol_text},
+                            prefill=sentinel if case["prefill"] else None)  # fmt: skip
+
+    r0 = run(None)
+    res.label(f"ff={case['ff']}", "prefilled" if case["prefill"] else "no-output-file", "serials-restart" if case["restart"] else "serials-running")
+    if not r0.ok:
+        res.bad("C12:ligand:complete-complex-fails", f"{case['ff']}: complete peptide + ligand complex fails: {r0.exc_text[:140]}")
+        return res
+    if not cand:
+        res.label("no-fractional-atom")
+        return res
+    i = max(cand, key=lambda j: min(frac[j], 1 - frac[j]))
+    r1 = run(i)
+    res.nontrivial = True
+    if r1.ok:
+        res.bad("C12:ligand:non-integral-accepted", f"{case['ff']}: ligand copy without its atom {names[i]} ({m.atoms[i]['type']}, charge {q[i]:+.4f}) "
+                f"cannot have an integral total charge, yet the run succeeded and wrote a PQR file")  # fmt: skip
+    elif case["prefill"] and (not r1.out_exists or r1.pqr_text != sentinel):
+        res.bad("C12:ligand:output-touched", "failed run changed the file at the output path")
+    elif not case["prefill"] and r1.out_exists:
+        res.bad("C12:ligand:output-left", "failed run left a file at the output path")
+    return res
+
+
 def parts(tier):
     return [
         Part("success", check_success, strategy=success_case(), budget=dict(quick=480, thorough=10000)),
         Part("fail", check_fail, strategy=fail_case(), budget=dict(quick=320, thorough=8000)),
+        Part("ligand", check_ligand, strategy=ligand_case(), budget=dict(quick=96, thorough=2000)),
         Part("inject-enum", check_inject_enum, cases=inject_cases, exhaustive=True),
         Part("malformed-enum", check_malformed_enum, cases=malformed_cases, exhaustive=True),
     ]
